@@ -67,7 +67,20 @@ def cmp_expr(kind, got, val, tol=None):
         if any(len(x.points) != ORDER[sk] for x in segs): return 'false'
         return f'list_eqb {sk}_feq ({got}) {vlib.clist([vlib.cseg(x) for x in segs])}'
     if kind == 'LE': return f'list_eqb gedge_feq ({got}) {vlib.clist([cedge(x) for x in val])}'
-    if kind in ('OLP', 'OLS', 'OXLS', 'OXLP', 'XP', 'XS', 'OLE', 'OXLE'):
+    if kind in ('OXFLAT', 'OXLIXSS', 'OXDIST'):
+        # round 5 (Gen/PathOps.v): option (outcome _) of a flattened path (edges with their _orig, closed) / a list of Intersections with both
+        # their segments / distanceToPath's (distance, t1, t2, seg1, seg2); None = out of fuel, never expected
+        if isinstance(val, PyRaised): return f'match {got} with Some (Raises {val.exc}) => true | _ => false end'
+        if kind == 'OXFLAT':
+            inner = f'list_eqb gedge_feq (fst g_) {vlib.clist([cedge(x) for x in val.asSegments()])} && Bool.eqb (snd g_) {vlib.cbool(bool(val.closed))}'
+        elif kind == 'OXLIXSS':
+            inner = f'list_eqb gixss_feq g_ {vlib.clist([f"({vlib.csegment(i.seg1)}, {vlib.csegment(i.seg2)}, ({vlib.fhex(i.t1)}, {vlib.cpt(i.point)}, {vlib.fhex(i.t2)}))" for i in val])}'
+        else:
+            d, t1, t2, s1, s2 = val
+            inner = (f"(let '(d_, a_, b_, s1_, s2_) := g_ in feq d_ {vlib.fhex(d)} && feq a_ {vlib.fhex(t1)} && feq b_ {vlib.fhex(t2)} && "
+                     f"gsegment_feq s1_ {vlib.csegment(s1)} && gsegment_feq s2_ {vlib.csegment(s2)})")
+        return f'match {got} with Some (Returns g_) => {inner} | _ => false end'
+    if kind in ('OLP', 'OLS', 'OXLS', 'OXLP', 'XP', 'XS', 'OLE', 'OXLE', 'OXS'):
         # results of the effectful definitions (Gen/Sample.v): O = option (None: out of fuel, never expected here), X = outcome
         # (Returns v | Raises e; the Python side is a PyRaised when the call raised a modelled exception)
         inner = {'LP': lambda g: f'list_eqb pt_feq {g} {vlib.clist([vlib.cpt(x) for x in val])}',
@@ -167,10 +180,12 @@ def cshape(o): return f'({o.tag}%nat, {cbox(o.b)})'
 def citem(it): return f'({cshape(it[0])}, {cbox(it[1])})'
 
 
+def corig(x):
+    o = getattr(x, '_orig', None)
+    return 'None' if o is None else '(Some ' + vlib.csegment(o) + ')'
 def cedge(l):
     """a Line produced by flatten, with its _orig attribute"""
-    o = getattr(l, '_orig', None)
-    return f'({vlib.cseg(l)}, {"None" if o is None else "(Some " + vlib.csegment(o) + ")"})'
+    return f'({vlib.cseg(l)}, {corig(l)})'
 
 
 def carg(kind, v):
@@ -195,6 +210,8 @@ def carg(kind, v):
     if kind == 'COND': return v.coq
     if kind == 'SHAPES': return vlib.clist([cshape(o) for o in v])
     if kind == 'SPLITLIST': return vlib.clist([f'({vlib.csegment(sg)}, {vlib.fhex(t)})' for sg, t in v])
+    if kind == 'TPATH':     # round 5: a path as (segments with their _orig, closed)
+        return f'({vlib.clist(["(" + vlib.csegment(x) + ", " + corig(x) + ")" for x in v.asSegments()])}, {vlib.cbool(bool(v.closed))})'
     if kind in ('RNG3', 'RNG4'): return f'(Ranged {vlib.cseg(v)} {vlib.fhex(v._range[0])} {vlib.fhex(v._range[1])})'     # a curve with its `_range`
     raise ValueError(kind)
 
@@ -690,6 +707,85 @@ WINDING_KERNELS = [
     K('Path_pointIsInside', ['WPATH', 'P'], _none_raising(lambda p, q: p.pointIsInside(q)), 'XB', libm=True),
 ]
 NEW_KERNELS4 = CURVECURVE_KERNELS + MINDIST_KERNELS + WINDING_KERNELS
+# round 5 -- the path-level drivers (Gen/PathOps.v)
+#   Path_flatten / signed_area / area / direction: a path as (segments with their `_orig`, closed); the loops run on FUEL iterations;
+#     IndexError of rSamples[-1] (a cubic with a NaN coordinate) is `Raises PyIndexError`
+#   Path_getSelfIntersections: the Intersections with BOTH their segments; the format parameter instantiated as in round 4; FUEL4 nested calls;
+#     AssertionError (coordinates ~1e30) is `Raises PyAssertionError`
+#   Path_distanceToPath: one fuel for the sampling loops and the recursion of minDist (FUEL_MD); `**` of basis_function replaced by powi on the
+#     Python side as for curvedistance_curveDistance_X_Y; an empty path is UnboundLocalError = `Raises PyUnboundLocalError`
+def g_tpath(rng):
+    """paths for BezierPath.flatten: the families of tools/props/C17.py (shapes, open / closed chains, staircases, paths that were flattened
+    before -- their lines carry an _orig --, teardrops), the sampling-loop paths of round 2 (sometimes empty, with a NaN / zero-length segment), a
+    random `closed` flag, sometimes a Line tagged by hand"""
+    from props import C17
+    from beziers.path import BezierPath
+    r = rng.random()
+    if r < 0.55:
+        p = C17.gen_path(rng)[1]
+        if p.length > 1500: p = g_spath(rng)
+    else: p = g_spath(rng)
+    if rng.random() < 0.5: p.closed = rng.random() < 0.5
+    if rng.random() < 0.08:
+        # a cubic with a NaN coordinate somewhere in the path: regularSampleTValue ends in rSamples[-1] of an empty list (IndexError)
+        segs = list(p.asSegments())
+        c = gen.segment(rng, order=4)[0]
+        q = c.points[rng.randrange(4)]
+        if rng.random() < 0.5: q.x = math.nan
+        else: q.y = math.nan
+        segs.insert(rng.randrange(len(segs) + 1), c)
+        cl = p.closed
+        p = BezierPath.fromSegments(segs); p.closed = cl
+    for x in p.asSegments():
+        if len(x.points) == 2 and not hasattr(x, '_orig') and rng.random() < 0.25: x._orig = gen.segment(rng)[0]
+    return p
+def g_sipath(rng):
+    """paths for getSelfIntersections: the closed chains of tools/props/C06.py (1..6 mixed segments, looping cubics), sometimes empty, rarely
+    with coordinates ~1e30 (AssertionError in the curve-curve recursion)"""
+    from props import C06
+    from beziers.path import BezierPath
+    r = rng.random()
+    if r < 0.04: segs = []
+    elif r < 0.10:
+        k = rng.choice([3, 4])
+        a = gen.KINDS[k](*[Point(rng.uniform(-1e30, 1e30), rng.uniform(-1e30, 1e30)) for _ in range(k)])
+        segs = [a, crossing_partner(rng, a, rng.choice([3, 4]))]
+        if rng.random() < 0.5: segs.insert(0, Line(Point(0.0, 0.0), Point(10.0, 5.0)))
+    else: segs = [C20fl(x) for x in C06.gen_path_segments(rng)]
+    return BezierPath.fromSegments(segs)
+def C20fl(x):
+    from props import C20
+    return C20.fl(x)
+def g_dpath(rng):
+    """(placeholder: the pair of paths for distanceToPath is made in special_args)"""
+    from beziers.path import BezierPath
+    return BezierPath.fromSegments([])
+def g_dsamp(rng): return rng.choice([10, 10, 10.0, 5, 4.0, 3, 2, 1, 7.5, 16])
+GEN['TPATH'] = g_tpath; GEN['SIPATH'] = g_sipath; KIND['SIPATH'] = 'PATH'; GEN['DPATH'] = g_dpath; KIND['DPATH'] = 'PATH'; GEN['dsamp'] = g_dsamp; KIND['dsamp'] = 'S'
+def _distance_to_path(p, q, samples):
+    from props import C20
+    from beziers.utils import curvedistance as CD
+    orig = CD.basis_function
+    CD.basis_function = lambda n, i, u: CD.C(i, n) * _powi(1 - u, n - i) * _powi(u, i)
+    try:
+        with C20.Recorder() as rec:
+            try: val = C20.limited(lambda: p.distanceToPath(q, samples), 3.0)
+            except C20.Timeout: raise ValueError('timeout')
+            except UnboundLocalError: return PyRaised('PyUnboundLocalError')
+    finally:
+        CD.basis_function = orig
+    if rec.finder is not None and (rec.finder.iterations > 1500 or rec.maxdepth + 1 > FUEL_MD): raise ValueError('too deep')
+    return (float(val[0]), float(val[1]), float(val[2]), val[3], val[4])
+PATHOPS_KERNELS = [
+    K('Path_flatten', ['TPATH', 'degree'], catching(lambda p, d: p.flatten(d)), 'OXFLAT', term=fuelled('Path_flatten')),
+    K('Path_getSelfIntersections', ['SIPATH'], _asserting(lambda p: p.getSelfIntersections()), 'OXLIXSS', libm=True, term=keyed('Path_getSelfIntersections')),
+    K('Path_distanceToPath', ['DPATH', 'DPATH', 'dsamp'], _distance_to_path, 'OXDIST',
+      term=lambda ops, cargs: f'Path_distanceToPath {ops} {FUEL_MD} {cargs}'),
+    K('Path_signed_area', ['TPATH'], catching(lambda p: p.signed_area), 'OXS', term=fuelled('Path_signed_area')),
+    K('Path_area', ['TPATH'], catching(lambda p: p.area), 'OXS', term=fuelled('Path_area')),
+    K('Path_direction', ['TPATH'], catching(lambda p: float(p.direction)), 'OXS', term=fuelled('Path_direction')),
+]
+NEW_KERNELS5 = PATHOPS_KERNELS
 
 KERNELS = {k.name: k for k in (
     [K('Point___add__', ['P', 'P'], lambda a, b: a + b, 'P'), K('Point___sub__', ['P', 'P'], lambda a, b: a - b, 'P'),
@@ -727,7 +823,7 @@ KERNELS = {k.name: k for k in (
      K('Quad_toCubicBezier', ['seg3'], lambda s: s.toCubicBezier(), 'seg4'),
      K('Cubic_findExtremes_False', ['seg4'], lambda s: s.findExtremes(), 'LS'),
      K('Cubic_hasLoop', ['seg4'], lambda s: s.hasLoop, 'OSS'),
-     ] + seg_kernels('seg2') + seg_kernels('seg3') + seg_kernels('seg4') + NEW_KERNELS + NEW_KERNELS2 + NEW_KERNELS3 + NEW_KERNELS4)}
+     ] + seg_kernels('seg2') + seg_kernels('seg3') + seg_kernels('seg4') + NEW_KERNELS + NEW_KERNELS2 + NEW_KERNELS3 + NEW_KERNELS4 + NEW_KERNELS5)}
 
 # comparison of flattened edges: the line and its _orig (None, or the curve it was cut from, class included)
 PREAMBLE = '''Definition gsegment_feq (a b : segment float) : bool :=
@@ -739,11 +835,13 @@ Definition gbox_feq (a b : bbox float) : bool := pt_feq (bl a) (bl b) && pt_feq 
 Definition gshape_feq (a b : shape float) : bool := Nat.eqb (fst a) (fst b) && gbox_feq (snd a) (snd b).
 Definition gitem_feq (a b : shape float * bbox float) : bool := gshape_feq (fst a) (fst b) && gbox_feq (snd a) (snd b).
 Definition gpair_feq (a b : shape float * shape float) : bool := gshape_feq (fst a) (fst b) && gshape_feq (snd a) (snd b).
+Definition gixss_feq (a b : segment float * segment float * (float * pt float * float)) : bool :=
+  gsegment_feq (fst (fst a)) (fst (fst b)) && gsegment_feq (snd (fst a)) (snd (fst b)) && ix_feq (snd a) (snd b).
 Fixpoint s_lookup4 (tbl : list (float * float * float)) (u v : float) : float :=
   match tbl with [] => PrimFloat.nan | (u', v', r) :: rest => if fbits_eq u u' && fbits_eq v v' then r else s_lookup4 rest u v end.
 '''
 IMPORTS = ['Gen.Utils', 'Gen.Point', 'Gen.Affine', 'Gen.BBox', 'Gen.Line', 'Gen.Quad', 'Gen.Cubic', 'Gen.CurveDist', 'Gen.Shapes', 'Gen.Fit', 'Gen.Sample',
-           'Gen.Nodelist', 'Gen.Sweep', 'Gen.Split', 'Gen.CurveCurve', 'Gen.MinDist', 'Gen.Winding', 'Hand.CurveCurve']      # (Hand.CurveCurve: key2F / keyF_eqb)
+           'Gen.Nodelist', 'Gen.Sweep', 'Gen.Split', 'Gen.CurveCurve', 'Gen.MinDist', 'Gen.Winding', 'Gen.PathOps', 'Hand.CurveCurve']      # (Hand.CurveCurve: key2F / keyF_eqb)
 
 
 def clone_arg(kind, v):
@@ -758,6 +856,15 @@ def clone_arg(kind, v):
     if kind == 'PATH':
         from beziers.path import BezierPath
         return BezierPath.fromSegments([x.clone() for x in v.asSegments()])
+    if kind == 'TPATH':
+        from beziers.path import BezierPath
+        segs = []
+        for x in v.asSegments():
+            c = x.clone()
+            if hasattr(x, '_orig'): c._orig = x._orig
+            segs.append(c)
+        q = BezierPath.fromSegments(segs); q.closed = v.closed
+        return q
     if kind == 'EDGE':
         l = v.clone()
         if hasattr(v, '_orig'): l._orig = v._orig
@@ -808,6 +915,16 @@ def special_args(k, rng, args):
         from props import C11
         q = C11.gen_queries(rng, C11.Geo(args[0]._cps), 1)[0][1]
         args[1] = Point(*q)
+    if name == 'Path_distanceToPath':
+        # round 5: the pairs of paths of tools/props/C20.py (disjoint, touching, crossing, identical, degenerate, near), sometimes an empty path
+        from props import C20
+        from beziers.path import BezierPath
+        s1, s2 = C20.path_pair(rng, rng.random() < 0.4, rng.choice(['identical', 'touch', 'cross', 'degenerate', 'near', 'other', 'other']))
+        r = rng.random()
+        if r < 0.05: s1 = []
+        elif r < 0.10: s2 = []
+        elif r < 0.12: s1, s2 = [], []
+        args[0], args[1] = BezierPath.fromSegments([C20.fl(x) for x in s1]), BezierPath.fromSegments([C20.fl(x) for x in s2])
     if name.startswith('curvedistance_minDist') or name.startswith('curvedistance_curveDistance'):
         # round 4: the operand families of tools/props/C20.py (disjoint, touching, crossing, identical, overlapping, degenerate, near, far-gap)
         from props import C20
